@@ -88,6 +88,9 @@ func c03Value(v interface{}, depth int) string {
 		}
 		return "f"
 	case float64:
+		if math.IsNaN(x) {
+			return "Nnan"
+		}
 		return fmt.Sprintf("N%016x", math.Float64bits(x))
 	case string:
 		return "S" + hx(x)
@@ -115,6 +118,8 @@ func c03ErrKind(e error) (string, bool) {
 	return "Other", false
 }
 
+var c03IdentDetail = regexp.MustCompile(`^([A-Za-z][A-Za-z0-9]*)=`)
+
 func c03Outcome(v interface{}, err error) string {
 	if err != nil {
 		if re, ok := err.(*util.RuntimeError); ok {
@@ -123,9 +128,10 @@ func c03Outcome(v interface{}, err error) string {
 				return "E " + k + " -"
 			}
 			// the operand the error names: token text, or name=value for identifiers
+			// (the value part is message text; string operands of the universe contain no '=')
 			name := re.Detail
-			if i := strings.Index(name, "="); i >= 0 {
-				name = name[:i]
+			if m := c03IdentDetail.FindStringSubmatch(name); m != nil {
+				name = m[1]
 			}
 			return "E " + k + " " + hx(name)
 		}
@@ -134,18 +140,33 @@ func c03Outcome(v interface{}, err error) string {
 	return "V " + c03Value(v, 0)
 }
 
+// c03NodeNames: node kind (by constant, not by its text) -> canonical name
+var c03NodeNames = map[string]string{
+	parser.NodeSTRING: "str", parser.NodeNUMBER: "num", parser.NodeIDENTIFIER: "ident", parser.NodeLIST: "list",
+	parser.NodeGEQ: "geq", parser.NodeLEQ: "leq", parser.NodeNEQ: "neq", parser.NodeEQ: "eq", parser.NodeGT: "gt", parser.NodeLT: "lt",
+	parser.NodePLUS: "plus", parser.NodeMINUS: "minus", parser.NodeTIMES: "times", parser.NodeDIV: "div",
+	parser.NodeDIVINT: "divint", parser.NodeMODINT: "modint", parser.NodeASSIGN: "assign",
+	parser.NodeAND: "and", parser.NodeOR: "or", parser.NodeNOT: "not",
+	parser.NodeLIKE: "like", parser.NodeIN: "in", parser.NodeHASPREFIX: "hasprefix", parser.NodeHASSUFFIX: "hassuffix", parser.NodeNOTIN: "notin",
+	parser.NodeTRUE: "true", parser.NodeFALSE: "false", parser.NodeNULL: "null",
+}
+
 func c03Tree(n *parser.ASTNode) string {
 	if n == nil {
 		return "NIL"
 	}
+	name, ok := c03NodeNames[n.Name]
+	if !ok {
+		name = "other:" + hx(n.Name)
+	}
 	if len(n.Children) == 0 {
-		return n.Name
+		return name
 	}
 	parts := make([]string, len(n.Children))
 	for i, c := range n.Children {
 		parts[i] = c03Tree(c)
 	}
-	return "(" + n.Name + "," + strings.Join(parts, ",") + ")"
+	return "(" + name + "," + strings.Join(parts, ",") + ")"
 }
 
 // ---------------------------------------------------------------- running the real code
@@ -309,16 +330,350 @@ func c03Tool(args []string) int {
 	return 2
 }
 
+// ---------------------------------------------------------------- generator
+
+var c03BinOps = []string{">=", "<=", "!=", "==", ">", "<", "+", "-", "*", "/", "//", "%", "and", "or",
+	"like", "in", "hasprefix", "hassuffix", "notin"}
+var c03PreOps = []string{"-", "+", "not"}
+
+// operand universe by kind
+var c03Nums = []string{"0", "1", "2", "3", "7", "0.5", "2.5", "1.50", "10", "100", "0.1", "0.3", "1e+308",
+	"123456789012345678901234567890", "9007199254740993", "a", "n"}
+var c03Strs = []string{`""`, `"a"`, `"x"`, `"abc"`, `"10"`, `"9"`, `"1"`, `"true"`, `"A"`, `" "`, `"a.c"`, `"("`,
+	`"^a"`, `"[1 x]"`, `'x'`, `r"x"`, `"<nil>"`, `"-2.5"`, "b", "s"}
+var c03Bools = []string{"true", "false", "TRUE", "c", "f"}
+var c03Nulls = []string{"null", "NULL", "d", "u"}
+var c03Lists = []string{"[]", "[1]", `[1, "x"]`, "[[1]]", "[1, 2, 3]", "[null]", "[a, b]", "[true, false]", `["10", 10]`, "l", "m"}
+var c03Kinds = [][]string{c03Nums, c03Strs, c03Bools, c03Nulls, c03Lists}
+
+// one representative per literal kind {num, str, bool, null, var, list}
+var c03Reps = []string{"2", `"x"`, "true", "null", "a", `[1, "x"]`}
+
+func c03IsWordTok(t string) bool {
+	c := t[len(t)-1]
+	d := t[0]
+	isw := func(c byte) bool {
+		return c >= 'a' && c <= 'z' || c >= 'A' && c <= 'Z' || c >= '0' && c <= '9' || c == '"' || c == '\'' || c == '.'
+	}
+	return isw(c) || isw(d)
+}
+
+// c03Join writes the token texts with a layout: single blanks (layout=false) or random
+// blanks / tabs / newlines / nothing between tokens (never gluing two word tokens or two
+// symbol tokens together).
+func c03Join(r *Rand, toks []string, layout bool) string {
+	var sb strings.Builder
+	for i, t := range toks {
+		if i > 0 {
+			sep := " "
+			if layout {
+				switch r.Intn(8) {
+				case 0:
+					sep = "\n"
+				case 1:
+					sep = "  "
+				case 2:
+					sep = "\t"
+				case 3:
+					sep = " \n  "
+				case 4, 5:
+					a, b := c03IsWordTok(toks[i-1]), c03IsWordTok(t)
+					if a != b && (t == "(" || t == ")" || t == "[" || t == "]" || t == "," || toks[i-1] == "(" || toks[i-1] == ")" || toks[i-1] == "[" || toks[i-1] == "]" || toks[i-1] == ",") {
+						sep = ""
+					}
+				}
+			}
+			sb.WriteString(sep)
+		}
+		sb.WriteString(t)
+	}
+	return sb.String()
+}
+
+type c03G struct {
+	g      *Gen
+	r      *Rand
+	layout bool
+}
+
+func (x *c03G) pick(xs []string) string { return xs[x.r.Intn(len(xs))] }
+
+// atom returns the tokens of an operand of the wanted kind (0 num, 1 str, 2 bool, 3 null, 4 list, 5 any)
+func (x *c03G) atom(kind int) []string {
+	if kind >= 5 {
+		kind = x.r.Intn(5)
+	}
+	a := x.pick(c03Kinds[kind])
+	if kind == 4 && a[0] == '[' {
+		return c03Toks(a)
+	}
+	return []string{a}
+}
+
+// c03Toks splits a list literal text of the universe into tokens (for layout)
+func c03Toks(s string) []string {
+	var out []string
+	cur := ""
+	flush := func() {
+		if cur != "" {
+			out = append(out, cur)
+			cur = ""
+		}
+	}
+	inq := false
+	for i := 0; i < len(s); i++ {
+		c := s[i]
+		switch {
+		case c == '"':
+			cur += string(c)
+			inq = !inq
+		case inq:
+			cur += string(c)
+		case c == '[' || c == ']' || c == ',':
+			flush()
+			out = append(out, string(c))
+		case c == ' ':
+			flush()
+		default:
+			cur += string(c)
+		}
+	}
+	flush()
+	return out
+}
+
+// expr generates a random expression of the wanted kind as a flat token list. Parentheses
+// are put at random, NOT where a grammar would need them: the parser decides the tree.
+func (x *c03G) expr(kind, depth int) []string {
+	r := x.r
+	if r.Intn(7) == 0 {
+		kind = r.Intn(6) // operand of a deliberately wrong kind
+	}
+	if depth <= 0 || r.Intn(5) == 0 {
+		return x.atom(kind)
+	}
+	wrap := func(t []string) []string {
+		if r.Intn(3) == 0 {
+			t = append(append([]string{"("}, t...), ")")
+			if r.Intn(4) == 0 {
+				t = append(append([]string{"("}, t...), ")")
+			}
+		}
+		return t
+	}
+	bin := func(ops []string, lk, rk int) []string {
+		l := wrap(x.expr(lk, depth-1))
+		rr := wrap(x.expr(rk, depth-1))
+		return append(append(l, x.pick(ops)), rr...)
+	}
+	var t []string
+	switch kind {
+	case 0:
+		switch r.Intn(6) {
+		case 0:
+			t = append([]string{x.pick([]string{"-", "+"})}, wrap(x.expr(0, depth-1))...)
+		default:
+			t = bin([]string{"+", "-", "*", "/", "//", "%"}, 0, 0)
+		}
+	case 2:
+		switch r.Intn(9) {
+		case 0, 1:
+			t = bin([]string{">=", "<=", ">", "<"}, 0, 0)
+		case 2:
+			t = bin([]string{">=", "<=", ">", "<", "==", "!="}, 5, 5)
+		case 3, 4:
+			t = bin([]string{"and", "or"}, 2, 2)
+		case 5:
+			t = append([]string{"not"}, wrap(x.expr(2, depth-1))...)
+		case 6:
+			t = bin([]string{"in", "notin"}, 5, 4)
+		case 7:
+			t = bin([]string{"like", "hasprefix", "hassuffix"}, 1, 1)
+		default:
+			t = bin([]string{"==", "!="}, 5, 5)
+		}
+	case 4:
+		n := r.Intn(4)
+		t = []string{"["}
+		for i := 0; i < n; i++ {
+			if i > 0 {
+				t = append(t, ",")
+			}
+			t = append(t, x.expr(5, depth-1)...)
+		}
+		if n > 0 && r.Intn(6) == 0 {
+			t = append(t, ",") // trailing comma
+		}
+		t = append(t, "]")
+	default:
+		if r.Intn(3) == 0 {
+			return x.atom(kind)
+		}
+		t = bin(c03BinOps, 5, 5)
+	}
+	return wrap(t)
+}
+
 func c03Gen(g *Gen) {
-	for _, s := range []string{"1 + 2 * 3", "5 % 0", "[1] == [1]"} {
-		g.Emit(c03Payload(s))
+	r := g.R
+	seen := map[string]bool{}
+	// the payload (lexing, evaluating the sub-expressions) is only computed for the cases this
+	// process executes; the others are skipped by the framework before it looks at the payload
+	si, sn, start := 0, 1, 0
+	for i, a := range os.Args {
+		if a == "-shard" && i+1 < len(os.Args) {
+			fmt.Sscanf(os.Args[i+1], "%d/%d", &si, &sn)
+		}
+		if a == "-start" && i+1 < len(os.Args) {
+			start, _ = strconv.Atoi(os.Args[i+1])
+		}
+	}
+	if sn <= 0 {
+		sn = 1
+	}
+	idx := -1
+	emit := func(class string, src string) {
+		if seen[src] {
+			return
+		}
+		seen[src] = true
+		g.Count(class)
+		idx++
+		if idx%sn != si || idx < start {
+			g.Emit("-")
+			return
+		}
+		g.Emit(c03Payload(src))
+	}
+	// corpus: inputs of the repaired defects and directed cases
+	for _, s := range []string{`5 % 0`, `5 % 0.5`, `[1] == [1]`, `[1] in [[1]]`, `[1] != [2]`, `(1 + "a") like "x"`, `1 like "("`,
+		`1 + 2 * 3`, `1 - 2 - 3`, `2 * 3 + 4`, `1 < 2 == true`, `not 1 == 2`, `not true and false`, `- 2 * 3`, `-2 + 3`,
+		`1 < "a"`, `"10" < 9`, `10 < 9`, `TRUE AND 5`, `false and 5`, `true or 5`, `(true and false) + 1`, `a + b`,
+		`r := 1 or 2`, `r := a + 1`, `r := not c`, `1e+308 % 3`, `-7 // 2`, `7 // -2`, `-7 % 2`, `7 % -2`, `0/0`, `1/0`, `-1/0`, `0/0 == 0/0`,
+		`[0/0] == [0/0]`, `1 in 5`, `1 in l`, `"x" notin l`, `true or (1 + "a")`, `1.50 and true`, `1 hasprefix 1`, `[1, "x"] hasprefix "[1"`,
+		`null == d`, `u == null`, `1 == 1.0`, `"1" == 1`, "1 +\n2", "1\n+ 2", "(\n1\n)", `-(-(1))`, `- - 1`, `not not true`, `+ "a"`, `- null`, `not 1`,
+		`1 in [1 2]`, `[1,] == [1]`, `1 <= 2 <= 3`, `1 + 2 > 2 and 3 * 1 == 3 or false`, `9007199254740993 % 9007199254740992`,
+		`123456789012345678901234567890 // 1`, `1 - -1`, `1 notin [] and not false`, `a a`, `1 +`, `(1`, `1 )`, `[1`, `* 2`} {
+		emit("corpus", s)
+	}
+	// every binary operator on every pair of literal kinds, several values
+	for _, op := range c03BinOps {
+		for ka, A := range c03Kinds {
+			for kb, B := range c03Kinds {
+				n := 3
+				if ka == kb {
+					n = 8
+				}
+				for k := 0; k < n; k++ {
+					emit("single-op", A[r.Intn(len(A))]+" "+op+" "+B[r.Intn(len(B))])
+				}
+			}
+		}
+	}
+	for _, p := range c03PreOps {
+		for _, A := range c03Kinds {
+			for _, a := range A {
+				emit("single-prefix", p+" "+a)
+			}
+		}
+	}
+	// operand triples for the pair enumeration: typed ones and rotating kinds
+	triples := [][3]string{{"1", "2", "3"}, {"7", "2", "0.5"}, {"true", "false", "true"}, {`"a"`, `"abc"`, `"x"`},
+		{"2", `"x"`, "true"}, {"null", "2", `[1, "x"]`}, {"a", "b", "c"}, {"l", "1", "l"}, {"true", "2", "2"}, {"3", "3", "false"}}
+	nrot := 2
+	if g.Thorough() {
+		nrot = 8
+	}
+	rot := 0
+	forms := []string{"A o B p C", "( A o B ) p C", "A o ( B p C )"}
+	for _, o1 := range c03BinOps {
+		for _, o2 := range c03BinOps {
+			for _, form := range forms {
+				ts := triples
+				for k := 0; k < nrot; k++ {
+					ts = append(ts, [3]string{c03Reps[rot%6], c03Reps[(rot/6)%6], c03Reps[(rot/36)%6]})
+					rot += 7
+				}
+				for _, t := range ts {
+					src := strings.NewReplacer("A", t[0], "B", t[1], "C", t[2], "o", o1, "p", o2).Replace(form)
+					emit("pair", src)
+				}
+			}
+		}
+	}
+	// prefix operator with a binary operator
+	pforms := []string{"q A o B", "q ( A o B )", "( q A ) o B", "A o q B", "A o ( q B )", "q q A o B"}
+	for _, q := range c03PreOps {
+		for _, o := range c03BinOps {
+			for _, form := range pforms {
+				for _, t := range triples {
+					src := strings.NewReplacer("A", t[0], "B", t[1], "o", o, "q", q).Replace(form)
+					emit("prefix-pair", src)
+				}
+			}
+		}
+	}
+	// prefix operator inside an operator pair
+	tforms := []string{"q A o B p C", "A o q B p C", "A o B p q C"}
+	ttr := [][3]string{{"1", "2", "3"}, {"true", "false", "true"}, {"2", `"x"`, "true"}, {"a", "l", "c"}}
+	for _, q := range c03PreOps {
+		for _, o1 := range c03BinOps {
+			for _, o2 := range c03BinOps {
+				for _, form := range tforms {
+					for _, t := range ttr {
+						src := strings.NewReplacer("A", t[0], "B", t[1], "C", t[2], "o", o1, "p", o2, "q", q).Replace(form)
+						emit("prefix-triple", src)
+					}
+				}
+			}
+		}
+	}
+	// operator triples (thorough: all; quick: a random sample)
+	nTriples := 3000
+	if g.Thorough() {
+		nTriples = 60000
+	}
+	for i := 0; i < nTriples; i++ {
+		t := triples[r.Intn(len(triples))]
+		d := c03Reps[r.Intn(6)]
+		src := t[0] + " " + c03BinOps[r.Intn(19)] + " " + t[1] + " " + c03BinOps[r.Intn(19)] + " " + t[2] + " " + c03BinOps[r.Intn(19)] + " " + d
+		emit("triple", src)
+	}
+	// assignment is loosest
+	for _, o := range c03BinOps {
+		for _, t := range triples {
+			emit("assign", "r := "+t[0]+" "+o+" "+t[1])
+		}
+	}
+	for _, q := range c03PreOps {
+		emit("assign", "r := "+q+" 1 + 2")
+		emit("assign", "r := "+q+" true and false")
+	}
+	// random trees to depth 6, random parentheses, random layout
+	nRandom := 6000
+	if g.Thorough() {
+		nRandom = 200000
+	}
+	x := &c03G{g: g, r: r}
+	for i := 0; i < nRandom; i++ {
+		depth := 1 + r.Intn(6)
+		toks := x.expr([]int{0, 2, 2, 5, 4}[r.Intn(5)], depth)
+		if r.Intn(12) == 0 {
+			toks = append([]string{"r", ":="}, toks...)
+		}
+		layout := r.Intn(2) == 0
+		cls := "random"
+		if layout {
+			cls = "random-layout"
+		}
+		emit(cls, c03Join(r, toks, layout))
 	}
 }
 
 // ---------------------------------------------------------------- extractor (go/ast over parser.go)
 
 // c03Kinds: Lean constructor of Ecal.Expr.Kind -> token constant
-var c03Kinds = [][2]string{
+var c03TableKinds = [][2]string{
 	{".num", "TokenNUMBER"}, {".str", "TokenSTRING"}, {".ident", "TokenIDENTIFIER"},
 	{".tru", "TokenTRUE"}, {".fls", "TokenFALSE"}, {".null", "TokenNULL"},
 	{".lp", "TokenLPAREN"}, {".rp", "TokenRPAREN"}, {".lb", "TokenLBRACK"}, {".rb", "TokenRBRACK"},
@@ -497,7 +852,7 @@ func c03Extract(args []string) int {
 	sb.WriteString("import Ecal.Model.Expr\n/-! GENERATED by `harness C03 -tool extract` from parser/parser.go (astNodeMap, ndPrefix, ldInfix,\nndInner, ndList) on every run of the check — do not edit. -/\nnamespace Ecal.Gen.C03\nopen Ecal.Expr\n\n")
 	col := func(title, typ string, f func(e c03Entry) string, dflt string) {
 		sb.WriteString("def " + title + " : Kind → " + typ + "\n")
-		for _, k := range c03Kinds {
+		for _, k := range c03TableKinds {
 			e, ok := entries[k[1]]
 			v := dflt
 			if ok {
